@@ -22,9 +22,17 @@ import numpy as np
 if not hasattr(np, "product"):
     np.product = np.prod
 
-from distance3d import hydroelastic_contact as hc
-from distance3d.hydroelastic_contact import _forces as fo
-from distance3d.aabb_tree import all_aabbs_overlap, _sort_aabbs
+hc = fo = all_aabbs_overlap = _sort_aabbs = None
+COVERED = ["_interface.py", "_forces.py", "_rigid_body.py", "_contact_surface.py"]
+
+
+def load():
+    """import distance3d (after coverage measurement has been started, if requested)"""
+    global hc, fo, all_aabbs_overlap, _sort_aabbs
+    from distance3d import hydroelastic_contact as _hc
+    from distance3d.hydroelastic_contact import _forces as _fo
+    from distance3d.aabb_tree import all_aabbs_overlap as _a, _sort_aabbs as _s
+    hc, fo, all_aabbs_overlap, _sort_aabbs = _hc, _fo, _a, _s
 
 
 def A(x):
@@ -134,6 +142,35 @@ def express(spec1, spec2, k=10):
     return out
 
 
+def details(spec1, spec2, k=12):
+    """contact_forces(..., return_details=True): the contact surface re-expressed in the world frame"""
+    b1, b2 = make_body(spec1), make_body(spec2)
+    inter, w12, w21, det = hc.contact_forces(b1, b2, return_details=True)
+    out = dict(inter=bool(inter), w12=L(w12), w21=L(w21), keys=sorted(det.keys()))
+    if not det:
+        return out
+    n = len(det["contact_areas"])
+    out["n"] = n
+    out["sum_force"] = L(np.sum(det["contact_forces"], axis=0))
+    out["contact_point"] = L(det["contact_point"])
+    out["area_sum"] = float(np.sum(det["contact_areas"]))
+    out["weighted_coms"] = L(np.sum(det["contact_coms"] * det["contact_areas"][:, np.newaxis], axis=0))
+    idx = list(range(n)) if n <= k else sorted({int(i * n / k) for i in range(k)} | {n - 1})
+    out["contacts"] = [dict(t1=L(det["intersecting_tetrahedra1"][i]), t2=L(det["intersecting_tetrahedra2"][i]),
+                            plane=L(det["contact_planes"][i]), poly=L(det["contact_polygons"][i]),
+                            force=L(det["contact_forces"][i]), area=float(det["contact_areas"][i]),
+                            com=L(det["contact_coms"][i]), pressure=float(det["pressures"][i]),
+                            tris=np.asarray(det["contact_polygon_triangles"][i]).astype(int).tolist()) for i in idx]
+    out["E1"] = float(b1.youngs_modulus)
+    # the same contacts in body 2's frame, for comparison
+    c1, c2 = make_body(spec1), make_body(spec2)
+    cs = hc.find_contact_surface(c1, c2)
+    out["frame2world"] = L(cs.frame2world)
+    out["local"] = [dict(plane=L(cs.contact_planes[i]), poly=L(cs.contact_polygons[i]), force=L(cs.contact_forces[i]),
+                         com=L(cs.contact_coms[i]), area=float(cs.contact_areas[i])) for i in idx]
+    return out
+
+
 def broad(spec1, spec2):
     out = {}
     # broad phase, both ways, on identical (fresh) bodies
@@ -199,6 +236,8 @@ def run_case(c):
             out["caches_after_back"] = cache_consistent(b1)
             out["b3_fresh"] = cf(make_body(s1), make_body(c["b3"]))
         out["express"] = express(s1, s2)
+        if c.get("details", True):
+            out["details"] = details(s1, s2, int(c.get("details_k", 12)))
         # internals on fresh bodies (must reproduce base bit for bit)
         out["internals"] = internals(make_body(s1), make_body(s2), max_rows)
         out["swap"] = cf(make_body(s2), make_body(s1))
@@ -214,8 +253,27 @@ def run_case(c):
 
 def main():
     payload = json.load(open(sys.argv[1]))
+    cov = None
+    if payload.get("trace"):
+        import coverage
+        cov = coverage.Coverage(branch=True, data_file=None, include=["*/hydroelastic_contact/" + f for f in COVERED])
+        cov.start()
+    load()
     res = [run_case(c) for c in payload["cases"]]
-    json.dump(dict(results=res), open(sys.argv[2], "w"))
+    out = dict(results=res)
+    if cov is not None:
+        cov.stop()
+        import os
+        rep = {}
+        base = os.path.dirname(hc.__file__)
+        for f in COVERED:
+            an = cov._analyze(os.path.join(base, f))
+            miss_arcs = an.missing_branch_arcs()
+            rep[f] = dict(statements=len(an.statements), missing_lines=sorted(an.missing),
+                          branches=an.numbers.n_branches, missing_branches=an.numbers.n_missing_branches,
+                          missing_arcs=sorted([int(a), int(b)] for a, bs in miss_arcs.items() for b in bs))
+        out["coverage"] = rep
+    json.dump(out, open(sys.argv[2], "w"))
 
 
 if __name__ == "__main__":
